@@ -13,12 +13,31 @@ use std::collections::HashMap;
 
 pub const AK: &str = "AKIDVERIFEXAMPLE0001";
 pub const AK2: &str = "AKIDVERIFEXAMPLE0002";
+/// two more accounts whose secrets stand in a prefix relation to the first two (one is the first secret and one more
+/// character, one is the first half of the second secret): a comparison or cache that looks at a prefix confuses them
+pub const AK3: &str = "AKIDVERIFEXAMPLE0003";
+pub const AK4: &str = "AKIDVERIFEXAMPLE0004";
+
+/// the signer of a generated request: mostly the first account, the others often enough that on every thread requests of
+/// accounts with related secrets follow each other in the same scope
+pub fn pick_ak(g: &mut Rng) -> &'static str {
+    match g.below(20) {
+        0..=9 => AK,
+        10..=13 => AK2,
+        14..=16 => AK3,
+        _ => AK4,
+    }
+}
 
 pub fn secrets(seed: u64) -> HashMap<String, String> {
     let mut g = Rng::new(seed ^ 0x5ec2e7);
     let mut m = HashMap::new();
     m.insert(AK.to_owned(), format!("sk1{}/+", g.alnum(34)));
     m.insert(AK2.to_owned(), format!("sk2{}=", g.alnum(36)));
+    let s3 = format!("{}2", m[AK]);
+    let s4 = m[AK2][..20].to_owned();
+    m.insert(AK3.to_owned(), s3);
+    m.insert(AK4.to_owned(), s4);
     m
 }
 
@@ -288,7 +307,7 @@ pub fn gen_unsigned(g: &mut Rng, features: &mut Vec<&'static str>) -> RawRequest
 pub fn gen_base(g: &mut Rng, secrets: &HashMap<String, String>) -> Base {
     let mut features = Vec::new();
     let mut req = gen_unsigned(g, &mut features);
-    let ak = if g.chance(3, 4) { AK } else { AK2 };
+    let ak = pick_ak(g);
     let t = now_unix() + g.range(-300, 300);
     let params = V4Params { access_key: ak.into(), secret: secrets[ak].clone(), amz_date: unix_to_amz_date(t), region: (*g.pick(&["us-east-1", "eu-west-3", "verif-region-1"])).into(), service: "s3".into() };
     let has_body = req.method == "PUT" || req.method == "POST";
